@@ -6,6 +6,7 @@ package handshake
 import (
 	"bytes"
 	"encoding/binary"
+	"math"
 
 	"github.com/pion/dtls/v3/internal/ciphersuite/types"
 	dtlserrors "github.com/pion/dtls/v3/internal/errors"
@@ -38,6 +39,9 @@ func (m *MessageClientKeyExchange) Marshal() (out []byte, err error) {
 	}
 
 	if m.IdentityHint != nil {
+		if len(m.IdentityHint) > math.MaxUint16 {
+			return nil, dtlserrors.ErrVectorTooLong
+		}
 		out = append([]byte{0x00, 0x00}, m.IdentityHint...)
 		binary.BigEndian.PutUint16(out, uint16(len(out)-2)) //nolint:gosec // G115
 	}
